@@ -513,6 +513,16 @@ def clause5(P, res):
                 continue
             if locky:
                 doms = [d for d in D if b.dominated_by_any(c.pos, {d.pos})]
+                # ... in the same critical section: a lock acquisition whose guard covers both the observation and the decision
+                acqs = [x for x in b.calls() if x.method == "lock" and x.args]
+                if acqs:
+                    same = []
+                    for a in acqs:
+                        held_a = mir.guards_held(b, [(a, None)])[0]
+                        if c.pos in held_a:
+                            same += [d for d in doms if d.pos in held_a and d.pos in b.pos_reach_set(a.pos)]
+                    if any(c.pos in mir.guards_held(b, [(a, None)])[0] for a in acqs):
+                        doms = same
                 if doms:
                     res.holds(rid, key, f"lock-based core: dequeue attempt at {doms[-1].loc} precedes the decision in the same critical section", where=c.loc)
                 else:
